@@ -103,19 +103,9 @@ def make_cfgs(tier):
 
 
 def run_one(cfg):
-    cfg = dict(cfg)
-    prm = dict(cfg["prm"])
-    dk = prm.pop("delta_kind", None)
-    if dk == "pow2":
-        prm["delta_fn"] = lambda h: 2.0 ** (-h)
-    elif dk == "const":
-        prm["delta_fn"] = lambda h: 0.5
-    cfg["prm"] = prm
     tr = S.run_session(cfg)
     if "cfg" in tr:
         tr["cfg"]["cls"] = classify(cfg)
-        if dk:
-            tr["cfg"]["prm"]["delta_kind"] = dk
     return tr
 
 
